@@ -65,7 +65,10 @@ theorem inboundData_outs (a : Agent) (now la src len : Nat) (stun : Bool) :
       rw [step_inboundData a now la src len l hc hs hl]
       cases hacc : accepts a l src with
       | false => rw [inboundData_reject a now l src len hacc]
-      | true => exact (inboundData_accept a now l src len hacc).1
+      | true =>
+        cases hf : rxFits a.rx len with
+        | true => exact (inboundData_accept a now l src len hacc hf).1
+        | false => exact (inboundData_full a now l src len hacc hf).1
 
 /-- the datagram the hub receives for an accepted write -/
 theorem dgramsOf_sent (f t n : Nat) (s : String) : dgramsOf [.data f t n, .res s] = [{ src := f, dst := t, p := .data n }] := rfl
